@@ -23,7 +23,7 @@ QUICK = [
     ('coarse_transport', dict(T=4, kind='transport', eff=0.5), None, 'B'),
     ('periodic_contract', dict(T=4, kind='contract', ec=True), None, 'B'),
     ('periodic_transport_dur', dict(T=8, kind='transport', eff=0.5, duration='4h'), None, 'B'),
-    ('orderbook_outside', dict(T=3, orders=((-3, -1, 1.0), (0, 2, 2.0), (1, 3, -1.5), (5, 7, 1.0))), None, 'B'),
+    ('orderbook_outside', dict(T=3, wacc=True, orders=((-3, -1, 1.0), (0, 2, 2.0), (1, 3, -1.5), (5, 7, 1.0))), None, 'B'),
     ('scaled_storage', dict(T=3, base='storage', win=(0, 2)), None, 'B'),
     ('structured', dict(T=2), None, 'B'),
     ('split_two_node', dict(T=4, freq='12h', unit='h', wacc=True), 'd', 'A'),
@@ -64,6 +64,9 @@ def cases(tier, seed):
     out = [(cid, dict(shape=SHAPE_OF.get(cid.split('@')[0], cid.split('@')[0]), kw=dict(kw), split=split, level=level)) for cid, kw, split, level in lst]
     # two-stage stochastic problems (make_slp): the same accounting identities on the extended problem
     out.append(('slp_two_node', dict(shape='two_node', kw=dict(T=3), split='slp', level='A', slp=dict(boundary=1, S=2))))
+    # the value a robust optimisation reports is the value of the nominal cost vector (what the cash-flow table adds up to), LP and MIP
+    out.append(('robust_value_lp', dict(shape='contract_storage', kw=dict(T=2), split='robust', level='A', slp=dict(S=1))))
+    out.append(('robust_value_mip', dict(shape='orderbook', kw=dict(T=2, full_exec=True, orders=((0, 2, 2.0), (1, 2, -1.5))), split='robust', level='A', slp=dict(S=1))))
     out.append(('slp_contract_storage', dict(shape='contract_storage', kw=dict(T=3, wacc=True), split='slp', level='A', slp=dict(boundary=2, S=1))))
     return out
 
@@ -86,6 +89,9 @@ def slp_scenario(D, shape, kw, boundary, S, env=None):
 
 def run_case(case_id, tier, seed, shape, kw, split, level, slp=None):
     rec = lpsem.Rec(PROP, case_id)
+    if split == 'robust':
+        from . import c03
+        return c03.run_robust(rec, seed, shape, kw, slp['S'])
     if split == 'slp':
         res = lift.explore_build(lambda D: slp_scenario(D, shape, kw, slp['boundary'], slp['S']), level=level)
     else:
@@ -145,6 +151,9 @@ def run_case(case_id, tier, seed, shape, kw, split, level, slp=None):
 
 
 def observe(case, kwargs, env, rq):
+    if kwargs.get('split') == 'robust':
+        from . import c03
+        return c03.observe_robust(case, dict(shape=kwargs['shape'], kw=kwargs['kw'], S=kwargs['slp']['S']), env, rq)
     if kwargs.get('split') == 'slp':
         D = lift.Domain(theta=env)
         sc = slp_scenario(D, kwargs['shape'], kwargs['kw'], kwargs['slp']['boundary'], kwargs['slp']['S'], env=env)
@@ -153,6 +162,9 @@ def observe(case, kwargs, env, rq):
 
 
 def judge(case, kwargs, cand, ans):
+    if kwargs.get('split') == 'robust':
+        from . import c03
+        return c03.judge_robust(case, dict(kind='robust', shape=kwargs['shape'], kw=kwargs['kw'], S=kwargs['slp']['S']), cand, ans)
     if cand.get('form') == 'crash' or 'crash' in cand.get('info', {}):
         return (True, 'raises on an in-domain input: ' + ans['error'][:200]) if 'error' in ans else (False, 'no exception')
     if 'error' in ans:
